@@ -13,6 +13,7 @@ CONSTANTS
   Interleave = TRUE
   WithTraffic = TRUE
   WithUnknownStop = TRUE
+  Forms = {1, 2, 3}
   LocMaps <- AllLocMaps
 INVARIANTS DumpInv
 CHECK_DEADLOCK FALSE
